@@ -54,6 +54,13 @@ Theorem c19_fatal_only_not_in_group : forall e o mn mx st a all_nodes all_pods,
 Proof. intros e o mn mx st a all_nodes all_pods r dry nodes st1 cls. exact (proj1 (scan_group_out e o mn mx st a all_nodes all_pods)). Qed.
 Print Assumptions c19_fatal_only_not_in_group.
 
+(* controller: across the force reaper and the grace-period reaper of one scan, never more than desired - min
+   instances are terminated (desired as refreshed at the start of the scan), for every state and oracle *)
+Theorem c19_budget : forall now gdry api g a nodes pods,
+  check_C19_budget (ctx_of now gdry api g a nodes pods) (r_calls (scan_of now gdry api g a nodes pods)) = true.
+Proof. exact group_budget_C19. Qed.
+Print Assumptions c19_budget.
+
 (* non-vacuity: in the sample world the force-tainted node's instance is terminated and only then its Node object
    deleted, then the same for the hard-expired node *)
 Example c19_ex : removal_targets (r_calls (ex_scan ex_opts gstate0 4800))
